@@ -127,6 +127,13 @@ def build_cases(tier):
     doc2 = "query T9a($a: Stamp!) { stamp(x: $a) }\nquery T9b($b: Stamp!, $w: Win) { stamp(x: $b) win(x: $w) }\nmutation T9c($c: Stamp!) { mstamp(x: $c) }\n"
     for opn, vs in (("T9a", [("a", "Stamp!", False)]), ("T9b", [("b", "Stamp!", False), ("w", "Win", False)]), ("T9c", [("c", "Stamp!", False)])):
         cases.append(dict(kind="scalar", query=doc2, op=opn, vars=vs, options={}, scalars=True, tags={"configured_scalar", "scalar_in_several_operations", f"op:{opn}"}))
+    # a configured scalar under the variable names the generated method uses for its own locals
+    for n in ("query", "variables", "data", "response", "Query", "_query", "operation_name"):
+        q = f"query NS(${n}: Stamp!, $other: String) {{ stamp(x: ${n}) multi(b: $other) }}\n"
+        cases.append(dict(kind="scalar", query=q, op="NS", vars=[(n, "Stamp!", False), ("other", "String", False)], options={}, scalars=True, tags={"configured_scalar", f"varname:{n}", "scalar_named_like_local"}))
+    # the same input types when the schema comes from introspection (no SDL nodes behind the fields)
+    for c in [c for c in cases if c["kind"] == "typed" and c["options"] == {} and ("type:In" in c["tags"] or "type:Rec" in c["tags"]) and "nodefault" in c["tags"]]:
+        cases.append(dict(c, introspection=True, tags=set(c["tags"]) | {"source:introspection"}))
     # the OpenTelemetry copies have a separate code path when a tracer is configured
     traced = [c for c in cases if c["options"] in ({}, {"async_client": False}) and (c["kind"] in ("multi", "sub", "scalar") or (c["kind"] == "typed" and ("type:In" in c["tags"] or "type:Rec" in c["tags"] or "shape:T" in c["tags"])))]
     for c in traced:
@@ -176,6 +183,9 @@ def evaluate(case):
             options = dict(options, files_to_include=[f"{d}/stamp_mod.py"],
                            scalars={"Stamp": {"type": "datetime.datetime", "serialize": ".stamp_mod.to_epoch"}})
         custom = STAMP_VALUES if case.get("scalars") else None
+        if case.get("introspection"):
+            genpkg.serve_introspection(SCHEMA_I)
+            options = dict(options, remote_schema_url="http://verif.invalid/graphql")
         try:
             pkg, pdir, _ = genpkg.generate(d, SCHEMA_I, case["query"], options, files=files)
             mod, mods = genpkg.import_package(d, pkg)
@@ -309,7 +319,7 @@ def main(tier):
     distinct = 0
     for case, (st, r) in zip(cases, results):
         tags = set(case["tags"]) | {f"cfg:{k}={v}" for k, v in case["options"].items()}
-        desc = {"query": case["query"], "options": case["options"], "op": case["op"], "tracer": case.get("tracer", "none")}
+        desc = {"query": case["query"], "options": case["options"], "op": case["op"], "tracer": case.get("tracer", "none"), "introspection": bool(case.get("introspection"))}
         if rep.triage:
             rep.seen(tags)
         if st != "ok":
@@ -341,7 +351,7 @@ def replay(path):
     c = rec["case"]
     genpkg.warm()
     case = next((x for x in build_cases("thorough") if x["query"] == c["query"] and x["options"] == c["options"] and x["op"] == c.get("op", x["op"])
-                 and x.get("tracer", "none") == c.get("tracer", "none")), None)
+                 and x.get("tracer", "none") == c.get("tracer", "none") and bool(x.get("introspection")) == bool(c.get("introspection"))), None)
     if case is None:
         print("case not found")
         return 1
